@@ -10,7 +10,7 @@ import sys
 
 from mc.engine import hbfs, par
 from mc.engine.report import Violation
-from mc.engine.seams import reset_library
+from mc.engine.seams import reset_library, new_model
 
 import ECAgent.Core as Core
 import ECAgent.Environments as Envs
@@ -61,10 +61,10 @@ def mk(model, kind, dims):
 def check_shape(case):
     reset_library()
     kind, dims = case['kind'], case['dims']
-    model = Core.Model(seed=1)
+    model = new_model(seed=1)
     world = mk(model, kind, dims)
     # other grid worlds alive in the same process, built after this one and queried in between
-    others = [Envs.GridWorld(Core.Model(seed=2), 4, 3), Envs.DiscreteWorld(Core.Model(seed=3), 2, 3, 4)]
+    others = [Envs.GridWorld(new_model(seed=2), 4, 3), Envs.DiscreteWorld(new_model(seed=3), 2, 3, 4)]
     table = [tuple(p) for p in world.cells['pos']]
     d3 = list(dims) + [0] * (3 - len(dims))
     rmax = max(max(d3), 1) + 1
@@ -163,6 +163,10 @@ def chunk_fn(ctx, chunk):
                 return
 
 
+# the cheap legs run once more under the runner's ambient configurations (python -O, other logger levels)
+AMBIENT_LEGS = True
+
+
 def run(ctx):
     cases = [{'leg': 'shape', 'kind': k, 'dims': d} for k, d in shapes(ctx.tier)]
     cases += [{'leg': 'big', 'kind': 'discrete', 'dims': [7, 7, 7], 'big': True, 'radii': [3, 4, 7]},
@@ -170,6 +174,8 @@ def run(ctx):
     if ctx.tier == 'thorough':
         cases += [{'leg': 'big', 'kind': 'discrete', 'dims': [9, 8, 7], 'big': True, 'radii': [3, 4, 5, 9]},
                   {'leg': 'big', 'kind': 'line', 'dims': [600], 'big': True, 'radii': [1, 150, 300, 601]}]
+    if ctx.small:
+        cases = [c for c in cases if c['leg'] == 'shape' and max(c['dims']) <= 2]
     cases.sort(key=lambda c: -(max(c['dims'][0], 1) * max((c['dims'] + [1, 1])[1], 1) * max((c['dims'] + [1, 1])[2], 1)))
     par.pmap(ctx, chunk_fn, [[c] for c in cases], procs=ctx.procs)
     for c in (cases[0], cases[len(cases) // 2], cases[-1]):
